@@ -322,6 +322,9 @@ def check_requested_dip(ctx, dip):
                    {"estimator": name, "dip": d, "dip_given_as": lab, "m_ref": m, "inclination_deg": float(inc)}, route=route)
 
 
+COUNTS = [3.0e2, 3.0e4, 2.5e6, 6.0e4, 1.9e9, 5.0e9, 3.0e12, 4.0e15]
+
+
 def check(case, ctx):
     q, dip, sa, sm, seed = case.p["q"], case.p["dip"], case.p["sa"], case.p["sm"], int(case.p["seed"])
     Rt = rq.refR(q)
@@ -352,6 +355,15 @@ def check(case, ctx):
                 if name.endswith("[constructor, one sample]"):
                     forms.invariant(ctx, name, lambda x, y: np.asarray(fn(x, y), float)[1], [np.array([acc, acc, acc]), np.array([mag, mag, mag])],
                                     clause="N-row constructor: the same values in another argument form give the same result", attitude=att)
+        if case.region != "whole" and (int(case.p["seed"]) + len(name)) % 3 == 0:
+            # raw converter counts: the two samples as whole numbers of the size a 16-, 32- or 64-bit sensor word holds (magnetometers report nano-tesla,
+            # accelerometers micro-g), handed over in that integer type - the same values as float64 give the answer to compare with
+            ka = int(case.p["seed"]) // 3
+            Sa_, Sm_ = COUNTS[ka % len(COUNTS)], COUNTS[(ka // len(COUNTS)) % len(COUNTS)]
+            acc_c, mag_c = np.round(acc / np.linalg.norm(acc) * Sa_) + 0.0, np.round(mag / np.linalg.norm(mag) * Sm_) + 0.0        # (+ 0.0: an integer has no negative zero)
+            if np.any(acc_c) and np.any(mag_c):
+                forms.invariant(ctx, name, lambda x, y: fn(x, y), [acc_c, mag_c], attitude=decode_kind(name) != "matrix", tol=1e-9,
+                                clause="raw integer counts (int16 / int32 / int64 samples of any size the type holds) give the answer the same values give as float64")
         out = call(fn, acc.copy(), mag.copy())
         if not ctx.returned(out, route=name):
             continue
